@@ -61,10 +61,10 @@ macro_rules! hash_entries {
         pub mod $modname {
             use super::*;
             entries! {
-                fn $one(msg: *const u8, len: usize, out: *mut [u8; 128]) { one_shot::<$t>(msg, len, out as *mut u8) }
-                fn $split(msg: *const u8, len: usize, c1: usize, c2: usize, out: *mut [u8; 128]) { split3::<$t>(msg, len, c1, c2, out as *mut u8) }
-                fn $clone(msg: *const u8, len: usize, c1: usize, out1: *mut [u8; 128], out2: *mut [u8; 128], out3: *mut [u8; 128]) { cloned::<$t>(msg, len, c1, out1 as *mut u8, out2 as *mut u8, out3 as *mut u8) }
-                fn $reuse(msg: *const u8, len: usize, junk: *const u8, c1: usize, out1: *mut [u8; 128], out2: *mut [u8; 128]) { reused::<$t>(msg, len, junk, c1, out1 as *mut u8, out2 as *mut u8) }
+                fn $one(msg: *const u8, len: usize, out: *mut [u8; 512]) { one_shot::<$t>(msg, len, out as *mut u8) }
+                fn $split(msg: *const u8, len: usize, c1: usize, c2: usize, out: *mut [u8; 512]) { split3::<$t>(msg, len, c1, c2, out as *mut u8) }
+                fn $clone(msg: *const u8, len: usize, c1: usize, out1: *mut [u8; 512], out2: *mut [u8; 512], out3: *mut [u8; 512]) { cloned::<$t>(msg, len, c1, out1 as *mut u8, out2 as *mut u8, out3 as *mut u8) }
+                fn $reuse(msg: *const u8, len: usize, junk: *const u8, c1: usize, out1: *mut [u8; 512], out2: *mut [u8; 512]) { reused::<$t>(msg, len, junk, c1, out1 as *mut u8, out2 as *mut u8) }
             }
         }
     };
@@ -82,7 +82,7 @@ macro_rules! blake_step {
         pub mod $modname {
             use super::*;
             entries! {
-                fn $name(h: *const [u8; 8 * $wb], t0: u64, t1: u64, prefill: *const u8, p: usize, msg: *const u8, len: usize, out: *mut [u8; 128]) {
+                fn $name(h: *const [u8; 8 * $wb], t0: u64, t1: u64, prefill: *const u8, p: usize, msg: *const u8, len: usize, out: *mut [u8; 512]) {
                     let mut d = <$t>::default();
                     d.update(sl(prefill, p));
                     let mut hw = [0 as $word; 8];
@@ -109,7 +109,7 @@ macro_rules! skein_step {
         pub mod $modname {
             use super::*;
             entries! {
-                fn $name(x: *const [u8; $nb], t0: u64, t1: u64, prefill: *const u8, p: usize, msg: *const u8, len: usize, out: *mut [u8; 128]) {
+                fn $name(x: *const [u8; $nb], t0: u64, t1: u64, prefill: *const u8, p: usize, msg: *const u8, len: usize, out: *mut [u8; 512]) {
                     let mut d = <$t>::default();
                     d.update(sl(prefill, p));
                     d.verif_set_state(digest::generic_array::GenericArray::from_slice(&*x), t0, t1);
@@ -163,7 +163,7 @@ pub mod x86 {
             pub mod $modname {
                 use super::*;
                 entries! {
-                    fn $name(cv: *const [u8; $nb], counter: u64, prefill: *const u8, p: usize, msg: *const u8, len: usize, out: *mut [u8; 128]) {
+                    fn $name(cv: *const [u8; $nb], counter: u64, prefill: *const u8, p: usize, msg: *const u8, len: usize, out: *mut [u8; 512]) {
                         let mut d = <$t>::default();
                         d.update(sl(prefill, p));
                         let mut w = [0u64; $nb / 8];
@@ -190,7 +190,7 @@ pub mod x86 {
             pub mod $modname {
                 use super::*;
                 entries! {
-                    fn $name(state: *const [u8; 128], datalen: usize, prefill: *const u8, p: usize, msg: *const u8, len: usize, out: *mut [u8; 128]) {
+                    fn $name(state: *const [u8; 128], datalen: usize, prefill: *const u8, p: usize, msg: *const u8, len: usize, out: *mut [u8; 512]) {
                         let mut d = <$t>::default();
                         d.update(sl(prefill, p));
                         d.verif_set_state(*state, datalen);
